@@ -196,6 +196,116 @@ pub fn mutate_field(rng: &mut Rng, bytes: &mut [u8], img: &Image, idx: &FieldInd
     desc
 }
 
+/// Regular chain (sector ids) of an entry according to the image's FAT (bounded walk).
+fn regular_chain(img: &Image, start: u32) -> Vec<u32> {
+    let mut v = Vec::new();
+    let mut cur = start;
+    while (cur as usize) < img.nsect && v.len() <= img.nsect {
+        v.push(cur);
+        match img.fat_get(cur) {
+            Some(n) => cur = n,
+            None => break,
+        }
+    }
+    v
+}
+
+/// Coordinated deviations: two or three fields changed together so that each change alone
+/// would be refused (or harmless) but the combination is accepted by open.  Returns the
+/// description, or None if the image offers no place for the chosen recipe.
+pub fn compound(rng: &mut Rng, bytes: &mut [u8], img: &Image) -> Option<String> {
+    let regular: Vec<&refparse::RawEntry> = img.entries.iter().filter(|e| e.obj_type == 2 && e.size >= 4096 && (e.start as usize) < img.nsect).collect();
+    match rng.below(5) {
+        0 => {
+            // an allocated entry cut out of the tree (an orphan, as left by a writer that
+            // deletes by unlinking) and adopted as the "child" of a stream
+            let n = img.entries.len() as u32;
+            let cands: Vec<&refparse::RawEntry> = img.entries.iter().filter(|e| e.idx != 0 && e.obj_type != 0 && e.obj_type != 5).collect();
+            if cands.len() < 2 {
+                return None;
+            }
+            let x = (*rng.pick(&cands)).idx;
+            // the link that refers to x
+            let mut cut = None;
+            for e in img.entries.iter().filter(|e| e.obj_type != 0) {
+                for (k, v) in [(68usize, e.left), (72, e.right), (76, e.child)] {
+                    if v == x && v < n {
+                        cut = Some((e.off + k, e.idx));
+                    }
+                }
+            }
+            let (cut_off, by) = cut?;
+            let streams: Vec<&refparse::RawEntry> = cands.iter().cloned().filter(|e| e.obj_type == 2 && e.idx != x).collect();
+            if streams.is_empty() {
+                return None;
+            }
+            let s = *rng.pick(&streams);
+            wr32(bytes, cut_off, NOSTREAM);
+            wr32(bytes, s.off + 76, x);
+            Some(format!("compound: entry {x} unlinked from entry {by} and set as the child of stream entry {}", s.idx))
+        }
+        1 => {
+            // a chain that returns to its first sector, under a length far beyond the chain
+            let e = *rng.pick(&regular.iter().cloned().filter(|e| regular_chain(img, e.start).len() >= 2).collect::<Vec<_>>().get(..).filter(|v| !v.is_empty())?);
+            let chain = regular_chain(img, e.start);
+            let last = *chain.last()?;
+            let off = img.fat_cell_off(last as usize)?;
+            wr32(bytes, off, e.start);
+            let len = *rng.pick(&[1u64 << 40, u32::MAX as u64, 1 << 31, e.size * 1000 + 7, (1 << 32) + 5000]);
+            wr64(bytes, e.off + 120, len);
+            Some(format!("compound: FAT[{last}] -> {} (first sector of entry {}) and its size {} -> {len:#x}", e.start, e.idx, e.size))
+        }
+        2 => {
+            // a chain whose last link is FREESECT (the tail sector is both in the chain and free)
+            let multi: Vec<&refparse::RawEntry> = regular.iter().cloned().filter(|e| regular_chain(img, e.start).len() >= 2).collect();
+            if multi.is_empty() {
+                return None;
+            }
+            let e = if rng.chance(1, 2) { *multi.iter().max_by_key(|e| regular_chain(img, e.start).last().cloned().unwrap_or(0))? } else { *rng.pick(&multi) };
+            let chain = regular_chain(img, e.start);
+            let last = *chain.last()?;
+            let off = img.fat_cell_off(last as usize)?;
+            wr32(bytes, off, FREE);
+            Some(format!("compound: FAT[{last}] (tail of entry {}'s chain) = FREESECT", e.idx))
+        }
+        3 => {
+            // two streams share their chain (cross-link)
+            if regular.len() < 2 {
+                return None;
+            }
+            let a = *rng.pick(&regular);
+            let b = *rng.pick(&regular);
+            if a.idx == b.idx {
+                return None;
+            }
+            wr32(bytes, b.off + 116, a.start);
+            if rng.chance(1, 2) {
+                wr64(bytes, b.off + 120, a.size);
+            }
+            Some(format!("compound: entry {} starts at entry {}'s first sector {}", b.idx, a.idx, a.start))
+        }
+        _ => {
+            // the chain's tail points into the middle of another stream's chain, with a size to match
+            if regular.len() < 2 {
+                return None;
+            }
+            let a = *rng.pick(&regular);
+            let b = *rng.pick(&regular);
+            if a.idx == b.idx {
+                return None;
+            }
+            let ca = regular_chain(img, a.start);
+            let cb = regular_chain(img, b.start);
+            let last = *ca.last()?;
+            let into = *rng.pick(&cb);
+            let off = img.fat_cell_off(last as usize)?;
+            wr32(bytes, off, into);
+            wr64(bytes, a.off + 120, a.size + b.size);
+            Some(format!("compound: tail FAT[{last}] of entry {} -> sector {into} of entry {}'s chain; size {} -> {}", a.idx, b.idx, a.size, a.size + b.size))
+        }
+    }
+}
+
 /// Whole-file damage: truncation, extension, byte flips.
 pub fn mutate_file(rng: &mut Rng, bytes: &mut Vec<u8>) -> String {
     match rng.below(6) {
